@@ -1,4 +1,5 @@
 """./check selftest determinism <C20|C09|C15> [n_seeds]
+./check selftest scheduler      (deadlock detection, lock seam, scripted replay)
 
 Every seed is executed several times -- at two worker counts, and once more in a
 launcher started under a different outer PYTHONHASHSEED (the re-exec must make it
@@ -66,6 +67,97 @@ def determinism(prop: str, n: int) -> int:
     return 2 if bad or harness else 0
 
 
+# ------------------------------------------------------------------ scheduler / lock seam unit tests
+
+
+def _sched_child(case: str, seed: int, script=None) -> dict:
+    """Runs inside a forked child: tiny synthetic workloads traced in *this* file."""
+    import random
+    import threading
+
+    from dst import sched
+
+    rng = random.Random(seed)
+    strat = sched.make_strategy(["scripted", script] if script is not None else ["uniform", 0.3])
+    sim = sched.Sim(rng, strat, trace_prefixes=(__file__,), step_cap=200000)
+    log = []
+    if case == "deadlock":
+        a, b = threading.Lock(), threading.Lock()
+
+        def t0():
+            with a:
+                for _ in range(5):
+                    log.append(0)
+                with b:
+                    log.append("t0")
+
+        def t1():
+            with b:
+                for _ in range(5):
+                    log.append(1)
+                with a:
+                    log.append("t1")
+
+        rec = sched.run_sim(sim, [t0, t1])
+        return {"outcome": rec["outcome"], "contention": rec["lock_contention"]}
+    if case == "mutex":
+        lock = threading.RLock()
+        shared = {"n": 0, "bad": 0}
+
+        def worker():
+            for _ in range(20):
+                with lock:
+                    with lock:  # re-entrant
+                        v = shared["n"]
+                        for _ in range(3):
+                            pass
+                        if shared["n"] != v:
+                            shared["bad"] += 1
+                        shared["n"] = v + 1
+
+        rec = sched.run_sim(sim, [worker, worker, worker])
+        return {"outcome": rec["outcome"], "n": shared["n"], "bad": shared["bad"],
+                "contention": rec["lock_contention"], "switches": rec["switches"], "digest": rec["digest"]}
+    if case == "race":
+        shared = {"n": 0}
+
+        def worker():
+            for _ in range(20):
+                v = shared["n"]
+                for _ in range(2):
+                    pass
+                shared["n"] = v + 1
+
+        rec = sched.run_sim(sim, [worker, worker])
+        return {"outcome": rec["outcome"], "n": shared["n"], "switches": rec["switches"], "digest": rec["digest"]}
+    raise ValueError(case)
+
+
+def scheduler_tests() -> int:
+    bad = 0
+    dl = sum(1 for s in range(40) if proc.fork_call(_sched_child, "deadlock", s)["outcome"] == "deadlock")
+    print("lock-order inversion: deadlock reported in %d/40 seeded schedules (must be > 0, never a hang)" % dl)
+    bad += dl == 0
+    lost = cont = 0
+    for s in range(40):
+        r = proc.fork_call(_sched_child, "mutex", s)
+        lost += (r["n"] != 60) or r["bad"] > 0 or r["outcome"] is not None
+        cont += r["contention"]
+    print("simulated RLock: %d/40 runs lost an update (must be 0), %d contended acquires (must be > 0)" % (lost, cont))
+    bad += lost != 0 or cont == 0
+    racy = 0
+    mism = 0
+    for s in range(40):
+        r = proc.fork_call(_sched_child, "race", s)
+        racy += r["n"] != 40
+        rr = proc.fork_call(_sched_child, "race", 0, r["switches"])
+        mism += (rr["n"], rr["digest"]) != (r["n"], r["digest"])
+    print("unsynchronised counter: %d/40 schedules lose an update (must be > 0); scripted replay of the recorded "
+          "schedule differs in %d/40 (must be 0)" % (racy, mism))
+    bad += racy == 0 or mism != 0
+    return 2 if bad else 0
+
+
 def main(rest) -> int:
     if not rest:
         print(__doc__)
@@ -74,6 +166,8 @@ def main(rest) -> int:
         prop = rest[1]
         n = int(rest[2]) if len(rest) > 2 else 200
         return determinism(prop, n)
+    if rest[0] == "scheduler":
+        return scheduler_tests()
     if rest[0] == "fingerprints":
         prop, n = rest[1], int(rest[2])
         print(json.dumps(fingerprints(prop, n, proc.n_workers())))
